@@ -149,8 +149,9 @@ class Sim:
         self.count("op:" + op["k"])
         self.count("st:" + out[0])
         try:
-            for spec in op.get("x", ()):
-                self.oracles[spec["o"]](self, op, spec, out)
+            if not self.peer_fired:  # after a peer fault the call has no result to hold against the request
+                for spec in op.get("x", ()):
+                    self.oracles[spec["o"]](self, op, spec, out)
             for m in self.monitors:
                 m.after(self, op, out)
         finally:
